@@ -37,7 +37,7 @@ package bip39
 // ---------------------------------------------------------------------------
 
 //@ func init
-//@   ensures [C07] default-source: cryptoRander == rand.Reader
+//@   ensures [C07,C12] default-source: cryptoRander == rand.Reader
 //@   ensures [C09,C15] sentinels: ErrWordLen != nil && ErrEntropyLen != nil && ErrChecksumIncorrect != nil && ErrWordLen != ErrEntropyLen && ErrWordLen != ErrChecksumIncorrect && ErrEntropyLen != ErrChecksumIncorrect
 
 //@ func Language.String
